@@ -10,6 +10,34 @@ PROTO_SUP = ["vp_rt.c", "valloc.c", "memloops.c", "slist_ref.c", "szvp_ref.c", "
 import os, sys
 sys.path.insert(0, os.path.join(os.path.dirname(os.path.abspath(__file__)), "..", "machine"))
 import mjobs
+import importlib.util as _ilu
+_cs = _ilu.spec_from_file_location("c01_compound_jobs", os.path.join(os.path.dirname(os.path.abspath(__file__)), "compound_jobs.py"))
+compound_jobs = _ilu.module_from_spec(_cs); _cs.loader.exec_module(compound_jobs)
+ASSUMPTIONS = ASSUMPTIONS + list(compound_jobs.ASSUMPTIONS)
+OUTSIDE = OUTSIDE + "; " + compound_jobs.OUTSIDE
+
+def getaddrinfo_jobs(tier):
+    """The getaddrinfo entry point: its request completes exactly once and the request object is not used after release,
+    for the start (e0) and for any sub-query completion (e1), with A and AAAA sub-queries outstanding together
+    (AF_UNSPEC) and sub-queries that complete synchronously.  The one-step walk harness is C12's gai_walk.c (its oracle
+    counts the user callback and tracks the outstanding-request counter against a ghost); reused here."""
+    import importlib.util
+    p12 = os.path.join(os.path.dirname(os.path.abspath(__file__)), "..", "C12", "jobs.py")
+    spec = importlib.util.spec_from_file_location("jobs_C12_reuse01", p12)
+    m12 = importlib.util.module_from_spec(spec); spec.loader.exec_module(m12)
+    quick = ("c12_walk_gai_e1_a_nd1_unspec_bf", "c12_walk_gai_e1_a_nd1_unspec_fb", "c12_walk_gai_e1_a_nd1_unspec_b",
+             "c12_walk_gai_e1_a_nd1_inet_bf", "c12_walk_gai_e0_a_nd2_unspec_bf", "c12_walk_gai_e0_a_nd2_unspec_fb",
+             "c12_walk_gai_e0_a_nd2_unspec_b", "c12_walk_gai_e0_a_nd2_unspec_f", "c12_walk_gai_e0_a_nd2_inet6_b",
+             "c12_walk_gai_e0_localhost_nd2_unspec_bf")
+    out = []
+    for j in m12.jobs(tier, 0):
+        if "walk_gai" not in j["name"] or (tier == "quick" and j["name"] not in quick):
+            continue
+        j = dict(j); j["harness"] = "../C12/" + j["harness"]
+        j["support"] = [("../C12/" + x if os.path.exists(os.path.join(os.path.dirname(p12), x)) else x) for x in j.get("support", [])]
+        out.append(j)
+    return out
+
 
 def jobs(tier, seed):
     J = []
@@ -48,4 +76,7 @@ def jobs(tier, seed):
     J += mjobs.destroy_jobs(tier)
     J += mjobs.readanswers_jobs(tier)
     J += mjobs.flush_jobs(tier)
+    J += getaddrinfo_jobs(tier)
+    # compound entry points built on ares_send/ares_query: ares_query, gethostbyaddr, getnameinfo, gethostbyname(_file)
+    J += compound_jobs.jobs(tier)
     return J
